@@ -28,7 +28,7 @@ try:
         res["suite"] = st.stdout.strip().splitlines()[0] if st.stdout else st.stderr[-200:]
         res["suite_ok"] = st.returncode == 0
         t0 = time.time()
-        ck = sh(f"cd {V} && VERIF_REPO={wt} ./check {prop} --tier quick")
+        ck = sh(f"cd {V} && VERIF_EVIDENCE_DIR=/tmp/seed_evidence VERIF_REPO={wt} ./check {prop} --tier quick")
         res["check_exit"] = ck.returncode
         res["check_wall_s"] = round(time.time() - t0)
         res["check_lines"] = [l for l in ck.stdout.splitlines() if l.startswith(("VIOLATION", "KNOWN-FINDING", "CHECK-ERROR"))][:8]
